@@ -30,6 +30,7 @@ type stormSpec struct {
 	StallMs   int `json:"stall_ms"`
 	SlowSends int `json:"slow_sends"` // every n-th envelope makes the send function sleep 1 ms (a slow socket)
 	Stalled   int `json:"stalled"`    // members whose socket write blocks for the whole storm; other connections replace them (same peer id)
+	Failing   int `json:"failing"`    // members whose socket write fails at the first envelope; their handler removes them a little later
 }
 
 func stormCase(args []string) string {
@@ -107,6 +108,31 @@ func stormCase(args []string) string {
 				rm := h.Add(sid(i), peers.Peer{PeerID: fmt.Sprintf("stalled%d", i), Role: "receiver", ConnID: fmt.Sprintf("re-%d-%d", i, k)}, send(), func() {})
 				ops.Add(1)
 				time.Sleep(200 * time.Microsecond)
+				rm()
+				ops.Add(1)
+			}
+		})
+	}
+	// broken sockets: the writer's send fails; until the connection's handler notices and removes it, it stays linked and other
+	// peers keep addressing it and broadcasting into its session
+	for i := 0; i < g.Failing; i++ {
+		i := i
+		guard(fmt.Sprintf("failing%d", i), func() {
+			for k := 0; ; k++ {
+				select {
+				case <-stop:
+					return
+				default:
+				}
+				rm := h.Add(sid(i), peers.Peer{PeerID: fmt.Sprintf("failing%d", i), Role: "receiver", ConnID: fmt.Sprintf("fail-%d-%d", i, k)},
+					func(protocol.Envelope) error { return fmt.Errorf("write: broken pipe") }, func() {})
+				ops.Add(1)
+				h.SendTo(sid(i), fmt.Sprintf("failing%d", i), env) // its writer runs into the error
+				for j := 0; j < 20; j++ {
+					h.SendTo(sid(i), fmt.Sprintf("failing%d", i), env)
+					h.Broadcast(sid(i), env)
+					runtime.Gosched()
+				}
 				rm()
 				ops.Add(1)
 			}
